@@ -65,7 +65,12 @@ impl Debt {
     pub(crate) fn pay<T: RefCnt>(&self, ptr: *const T::Base) -> bool {
         verif_step!(DEBT_PAY);
         self.0
-            // If we don't change anything because there's something else, Relaxed is fine.
+            // If we don't change anything because there's something else, we still need Acquire:
+            // the slot may have been emptied (or reused) by the reader that owned the debt, and
+            // whatever that reader did with the pointer must happen before what the caller does
+            // next ‒ possibly dropping the last reference. A relaxed failure would leave a data
+            // race between the reader's accesses and the destruction for any RefCnt that does
+            // not put an acquire fence into its drop.
             //
             // The Release works as kind of Mutex. We make sure nothing from the debt-protected
             // sections leaks below this point.
@@ -74,7 +79,7 @@ impl Debt {
             // necessarily observe that increment, but whoever destroys the pointer *must* see the
             // up to date value, with all increments already counted in (the Arc takes care of that
             // part).
-            .compare_exchange(ptr as usize, Self::NONE, Release, Relaxed)
+            .compare_exchange(ptr as usize, Self::NONE, Release, Acquire)
             .is_ok()
     }
 
